@@ -142,6 +142,33 @@ var selfCore = &fieldSpec{"self", "Core"}
 var hookedFields = map[string]fieldSpec{"Core": {"core", "Core"}, "funcs": {"funcs", "[]HookFn"}}
 var lfcFields = map[string]fieldSpec{"core": {"core", "Core"}, "level": {"level", "LevelEnabler"}}
 
+// ---- logger.go: Logger.check (up to the early return for entries nobody writes), terminalHookOverride, and the
+// level guards of SugaredLogger.log / logln.  Hooks are nil-able values [code]: WriteThenNoop 0, Goexit 1, Panic 2,
+// Fatal 3, anything else a custom hook.
+var hookConsts = map[string]string{
+	"zapcore.WriteThenNoop": "val:opt:Hook|.list [.int 0]", "zapcore.WriteThenGoexit": "val:opt:Hook|.list [.int 1]",
+	"zapcore.WriteThenPanic": "val:opt:Hook|.list [.int 2]", "zapcore.WriteThenFatal": "val:opt:Hook|.list [.int 3]",
+	"zapcore.DPanicLevel": "i8:3", "zapcore.PanicLevel": "i8:4", "zapcore.FatalLevel": "i8:5", "DPanicLevel": "i8:3",
+}
+var loggerTypes = map[string]string{"zapcore.Level": "i8", "zapcore.CheckWriteHook": "opt:Hook", "*zapcore.CheckedEntry": "ptr:struct:CE",
+	"zapcore.Entry": "struct:Entry"}
+var loggerStructs = map[string][]fieldSpec{
+	"Entry": {{"LoggerName", "string"}, {"Time", "Time"}, {"Level", "i8"}, {"Message", "string"}},
+	"CE":    {{"cores", "[]Core"}, {"after", "opt:Hook"}},
+}
+
+// SugaredLogger.log / logln: the level guard is translated; formatting, Check, sweetenFields and Write are the tail
+func sugarGuard(name, from string) transFunc {
+	return transFunc{file: "sugar.go", recv: "SugaredLogger", name: name, lean: "Sugar_" + name,
+		fields: map[string]fieldSpec{"#ev": {"ev", "[]Event"}},
+		types:  map[string]string{"zapcore.Level": "i8", "interface{}": "Any"}, consts: hookConsts,
+		tail: &tailSpec{from: from, f: "Sugar.formatCheckWrite", args: []string{"lvl"}, trace: "#ev"},
+		calls: map[string]shim{
+			// s.base.Core().Enabled(lvl): the base logger's core
+			"recv.base.Core().Enabled": {kind: "ext", f: "Core.Enabled", res: []string{"bool"}},
+		}}
+}
+
 var jsonEncFields = map[string]fieldSpec{
 	"buf":            {"buf", "Buffer"},
 	"spaced":         {"spaced", "bool"},
@@ -234,6 +261,23 @@ var transSpecs = []transSpec{
 				// decodeRune(x) is utf8.DecodeRuneInString / DecodeRune: (rune, size), modelled by Esc.validLen
 				"DecodeFn()": {kind: "extstmt", f: "decodeRune", res: []string{"i32", "int"}},
 			})},
+	}},
+	{table: "TransLogger", funcs: []transFunc{
+		{file: "logger.go", name: "terminalHookOverride", lean: "terminalHookOverride", types: loggerTypes, consts: hookConsts},
+		{file: "logger.go", recv: "Logger", name: "check", lean: "Logger_check",
+			fields: map[string]fieldSpec{"core": {"core", "Core"}, "name": {"name", "string"}, "clock": {"clock", "Clock"},
+				"development": {"dev", "bool"}, "onPanic": {"onPanic", "opt:Hook"}, "onFatal": {"onFatal", "opt:Hook"}, "#ev": {"ev", "[]Event"}},
+			types: loggerTypes, consts: hookConsts, structs: loggerStructs,
+			tail: &tailSpec{from: "ce.ErrorOutput = log.errorOutput", f: "Logger.annotate", args: []string{"ce", "ent"}, res: "ptr:struct:CE", trace: "#ev"},
+			calls: map[string]shim{
+				"Core.Enabled":         {kind: "ext", f: "Core.Enabled", res: []string{"bool"}},
+				"Core.Check":           {kind: "extstmt", f: "Core.Check", res: []string{"ptr:struct:CE"}, trace: "#ev"},
+				"Clock.Now":            {kind: "extstmt", f: "Clock.Now", res: []string{"Time"}, trace: "#ev"},
+				"ptr:struct:CE.After":  {kind: "ext", f: "CE.After", res: []string{"ptr:struct:CE"}}, // proved separately: TransCEAdd
+				"terminalHookOverride": {kind: "fun", f: "terminalHookOverride", res: []string{"opt:Hook"}},
+			}},
+		sugarGuard("log", "msg := getMessage(template, fmtArgs)"),
+		sugarGuard("logln", "msg := getMessageln(fmtArgs)"),
 	}},
 	{table: "TransCores", funcs: []transFunc{
 		coreFunc("zapcore/core.go", "ioCore", "Sync", ioCoreFields, selfCore, ioCoreCalls),
